@@ -47,6 +47,47 @@ func defaultFormat(v interface{}, f fmt.State, c rune) {
 	fmt.Fprintf(f, format, v)
 }
 
+// formatInteger writes the unsigned conversion c (o, x or X) of u the way C's printf does. Go's fmt
+// differs in the alternate form: it writes 0x in front of a zero, does not count the prefix when it
+// pads with zeros, and lets a precision of 0 suppress the "0" that %#o asks for.
+func formatInteger(f fmt.State, c rune, u uint64) {
+	var digits string
+	switch c {
+	case 'o':
+		digits = strconv.FormatUint(u, 8)
+	case 'x':
+		digits = strconv.FormatUint(u, 16)
+	case 'X':
+		digits = strings.ToUpper(strconv.FormatUint(u, 16))
+	}
+	prec, hasprec := f.Precision()
+	if hasprec && prec == 0 && u == 0 {
+		digits = ""
+	}
+	if len(digits) < prec {
+		digits = strings.Repeat("0", prec-len(digits)) + digits
+	}
+	prefix := ""
+	switch {
+	case f.Flag('#') && c == 'o' && !strings.HasPrefix(digits, "0"):
+		digits = "0" + digits
+	case f.Flag('#') && (c == 'x' || c == 'X') && u != 0:
+		prefix = "0" + string(c)
+	}
+	pad := 0
+	if w, ok := f.Width(); ok && w > len(prefix)+len(digits) {
+		pad = w - len(prefix) - len(digits)
+	}
+	switch {
+	case f.Flag('-'):
+		io.WriteString(f, prefix+digits+strings.Repeat(" ", pad))
+	case f.Flag('0') && !hasprec:
+		io.WriteString(f, prefix+strings.Repeat("0", pad)+digits)
+	default:
+		io.WriteString(f, strings.Repeat(" ", pad)+prefix+digits)
+	}
+}
+
 // unsignedFmtState hides the flags '+' and ' ': C ignores them for an unsigned conversion
 type unsignedFmtState struct{ fmt.State }
 
